@@ -4,6 +4,7 @@ import (
 	"fmt"
 	"reflect"
 	"sort"
+	"strings"
 	"time"
 
 	ucfg "github.com/elastic/go-ucfg"
@@ -162,6 +163,37 @@ func doRead(cfg *ucfg.Config, rd J, ropts []ucfg.Option) (res interface{}) {
 			return errKind(err)
 		}
 		return okRes(canonGoVal(target.Elem().Field(0)))
+	case "captured":
+		// Unpack into a struct capturing the setting as *Config (or Config) under a policy tag, idx times into the same
+		// target: reading must leave the configuration as it is however often it is done
+		pol := str(rd, "ty")
+		byValue := strings.HasSuffix(pol, "|value")
+		pol = strings.TrimSuffix(pol, "|value")
+		tag := name
+		if pol != "" {
+			tag += "," + pol
+		}
+		ft := reflect.TypeOf((*ucfg.Config)(nil))
+		if byValue {
+			ft = ft.Elem()
+		}
+		st := reflect.StructOf([]reflect.StructField{{Name: "X", Type: ft, Tag: reflect.StructTag(fmt.Sprintf(`config:%q`, tag))}})
+		target := reflect.New(st)
+		for i := 0; i < idx || i < 1; i++ {
+			if err := cfg.Unpack(target.Interface(), ropts...); err != nil {
+				return errKind(err)
+			}
+		}
+		var got *ucfg.Config
+		if byValue {
+			got = target.Elem().Field(0).Addr().Interface().(*ucfg.Config)
+		} else {
+			got = target.Elem().Field(0).Interface().(*ucfg.Config)
+		}
+		if got == nil {
+			return okRes(nil)
+		}
+		return doRead(got, J{"r": "view"}, ropts)
 	case "keys":
 		k := append([]string{}, cfg.FlattenedKeys(ropts...)...)
 		sort.Strings(k)
